@@ -145,11 +145,18 @@ void World::exec_op(const Op &op) {
 		if (op.a.has("hex")) bytes = hexdec(op.a.gets("hex"));
 		else {
 			if (op.a.has("msg")) payload = op.a.get("msg")->dump(); else if (op.a.has("texthex")) payload = hexdec(op.a.gets("texthex")); else payload = op.a.gets("text");
-			if (cl->in.ws) bytes = ws_frame((int)op.a.geti("wsop", 1), payload, !op.a.getb("nofin"), !op.a.getb("nomask"), (uint32_t)mix64(plan.seed, op.uid), (int)op.a.geti("rsv", 0), (int)op.a.geti("lenenc", 0));
+			if (cl->in.ws) bytes = ws_frame((int)op.a.geti("wsop", 1), payload, !op.a.getb("nofin"), !op.a.getb("nomask"), (uint32_t)mix64(plan.seed, (uint64_t)op.a.getd("muid", (double)op.uid)), (int)op.a.geti("rsv", 0), (int)op.a.geti("lenenc", 0));
 			else bytes = raw_frame(payload);
 		}
 		long cut = (long)op.a.getd("cut", -1);
 		if (cut >= 0 && (size_t)cut < bytes.size()) { bytes.resize((size_t)cut); probe("truncated_send"); }
+		const JV *pf = op.a.get("pfrac");
+		if (pf && pf->t == JV::Arr && pf->a.size() == 2 && bytes.size() >= 2) {
+			// only a part of the encoded bytes: [0,k) now (an early prefix of a later message) or [k,end) later
+			double f = pf->a[0].d > 0 ? pf->a[0].d : pf->a[1].d;
+			size_t k = (size_t)(f * (double)bytes.size()); if (k < 1) k = 1; if (k > bytes.size() - 1) k = bytes.size() - 1;
+			if (pf->a[0].d > 0) bytes = bytes.substr(k); else { bytes.resize(k); probe("early_prefix_of_next"); }
+		}
 		send_from_client(*cl, bytes, op.a.get("seg"), (uint64_t)op.a.getd("gap", 0), op.uid);
 		return;
 	}
@@ -196,6 +203,8 @@ void World::quiescent_point() {
 	for (auto &c : clients) {
 		if (c.policy.gets("expect_http") == "reject" && c.hs_sent && c.accepted && !c.daemon_closed && !c.http_err_seen)
 			violation("C13", "invalid-request-not-answered", "a complete request that is not a valid upgrade (" + c.policy.gets("defect") + ") was neither answered with an error status nor closed");
+		if (c.policy.has("must_be_dropped") && c.accepted && !c.daemon_closed && q.empty())
+			violation("C09", "oversize-not-refused", "connection c" + std::to_string(c.idx) + " announced a message above the configured maximum (" + c.policy.gets("must_be_dropped") + ") and is still open");
 		if (c.policy.getb("may_process_frag") && c.accepted && !c.daemon_closed && !c.client_closed && c.space < 0 && !res.inconclusive) { res.inconclusive = true; res.inconclusive_why = "daemon accepted a fragmented data message (reassembly is not modelled)"; finish(0); bail(); }
 	}
 	if (mode == "exact") {
@@ -229,14 +238,17 @@ bool World::next_phase() {
 			}
 			if (mode == "exact") model.check_deadlines(now, true);
 			if (end_mode == 1) { phase = 5; continue; }
-			phase = 2;
+			bool serial = plan.hdr.getb("end_close_serial");
+			if (!serial) phase = 2;
 			bool any = false;
 			for (auto &cl : clients) if (cl.connected && !cl.client_closed && !cl.daemon_closed) {
+				if (serial && any) break;      // one connection at a time: the order in which connections end is part of the input
 				cl.client_closed = true; cl.eof = true; any = true;
 				if (cl.space >= 0) { cl.space = -1; }
 				if (cl.accepted) { KFd *kk = g_kernel.get(cl.fd); if (kk) g_kernel.mark_pending(*kk); }
 			}
 			if (any) return false;
+			phase = 2;
 			continue; }
 		case 2: {
 			// all clients asked to close; everything drained
